@@ -4,9 +4,13 @@ From Dials Require Export Base.Outcome Base.Runes Reflect.Ty Reflect.Ptrify Stac
 Import ListNotations.
 Open Scope N_scope.
 
+(* one observation group: the operations (one, or two racing SetSource calls in
+   the order the Blank's mutex serialises them), their return classes, then View
+   and Blank.Value after the group *)
+Definition obs_group := (list blank_op * list (outcome unit) * list val * outcome val)%type.
+
 Inductive c20bcase :=
-| BlankCase (fs : fields) (defaults : list val) (ops : list blank_op)
-            (obs : list (outcome unit * list val * outcome val)).
+| BlankCase (fs : fields) (defaults : list val) (groups : list obs_group).
 
 Definition vals_eqb (a b : list val) : bool := val_eqb (VList a) (VList b).
 Definition cls_eqb (a b : outcome unit) : bool :=
@@ -21,22 +25,37 @@ Definition oval_eqb (a b : outcome val) : bool :=
   | _, _ => false
   end.
 
-Fixpoint replay (fs : fields) (d : list val) (bs : blank * dstate) (ops : list blank_op)
-  (obs : list (outcome unit * list val * outcome val)) : bool :=
-  match ops, obs with
+Fixpoint run_group (fs : fields) (d : list val) (bs : blank * dstate) (ops : list blank_op)
+  : blank * dstate * list (outcome unit) :=
+  match ops with
+  | [] => (fst bs, snd bs, [])
+  | o :: ops' =>
+      let '(b', st', r) := blank_step fs d (fun _ => true) prm0 bs o in
+      let '(b'', st'', rs) := run_group fs d (b', st') ops' in
+      (b'', st'', r :: rs)
+  end.
+
+Fixpoint rets_eqb (a b : list (outcome unit)) : bool :=
+  match a, b with
   | [], [] => true
-  | o :: ops', (r, view, bval) :: obs' =>
-      let '(b', st', r') := blank_step fs d (fun _ => true) prm0 bs o in
-      cls_eqb r r' && vals_eqb view (d_cur st') && oval_eqb bval (blank_value fs b') &&
-      replay fs d (b', st') ops' obs'
+  | x :: a', y :: b' => cls_eqb x y && rets_eqb a' b'
   | _, _ => false
+  end.
+
+Fixpoint replay (fs : fields) (d : list val) (bs : blank * dstate) (groups : list obs_group) : bool :=
+  match groups with
+  | [] => true
+  | (ops, rets, view, bval) :: rest =>
+      let '(b', st', rs) := run_group fs d bs ops in
+      rets_eqb rets rs && vals_eqb view (d_cur st') && oval_eqb bval (blank_value fs b') &&
+      replay fs d (b', st') rest
   end.
 
 Definition check (c : c20bcase) : N :=
   match c with
-  | BlankCase fs d ops obs =>
+  | BlankCase fs d groups =>
       match d_config fs d (fun _ => true) prm0 [blank_layer fs] [true] with
-      | Ok st0 => if replay fs d ({| b_inner := None; b_has_wa := true |}, st0) ops obs then 0 else 3
+      | Ok st0 => if replay fs d ({| b_inner := None; b_has_wa := true |}, st0) groups then 0 else 3
       | _ => 2
       end
   end.
